@@ -4,7 +4,7 @@ Proof: GardenVerif.Props.C11 over the session model of Model/Resume.lean (`reque
 `batch` on top of the machine model M4).
 
 Tie (C): `garden reftest-json-session` with n `run` requests vs ONE request with the concatenation, against
-the model's `session_run` (both replies) for the histories inside the model's fragment. Direct oracle = the
+the model's `c11_session_run` (both replies) for the histories inside the model's fragment. Direct oracle = the
 property itself on the real binary: for an error-free history in which every name is defined once, the
 value reported for the last input equals the value reported when all inputs are submitted as one input
 (and the concatenated run is error-free too).
@@ -104,8 +104,11 @@ class Gen:
         if c < 0.74:
             return "print", "println(string_repr(%s))" % self.int_expr()
         if c < 0.8 and self.ints:
-            x = r.choice(self.ints)
-            return "while", "while %s < %d { %s += 1 }" % (x, r.randrange(0, 20), x)
+            # bounded by a fresh counter (the value of an earlier variable may be anything)
+            x, w = r.choice(self.ints), self.fresh("w")
+            src = "let %s = 0\nwhile %s < %d { %s += 1 %s += %s }" % (w, w, r.randrange(0, 6), w, x, w)
+            self.ints.append(w)
+            return "while", src
         if c < 0.86 and self.ints and self.lists and (self.allow_trailing_for or not last):
             return "for", "for e in %s { %s += e }" % (r.choice(self.lists), r.choice(self.ints))
         if c < 0.92 and self.enums:
@@ -128,6 +131,10 @@ class Gen:
                 kind, src = self.item(last=(j == m - 1))
                 items.append(src)
                 kinds.append(kind)
+            if k == n - 1 and kinds[-1] in ("fun", "enum"):
+                # the last input reports a value: end it with an expression
+                items.append(self.int_expr() if not self.lists or self.r.random() < 0.6 else self.r.choice(self.lists))
+                kinds.append("expr")
             inputs.append("\n".join(items) + "\n")
         return inputs, kinds
 
@@ -207,11 +214,21 @@ def run(ctx):
         stats["inputs_hist"][str(n)] = stats["inputs_hist"].get(str(n), 0) + 1
         err_free = rci == 0 and len(ri) == n and all(r[0] == "ok" for r in ri)
         ctx.case(tuple(inputs), err_free and n >= 2 and uses_earlier(inputs))
+        if rci == -9999 or rcb == -9999:
+            stats["timed_out_not_judged"] = stats.get("timed_out_not_judged", 0) + 1
+            continue
         if rci != 0 or rcb != 0:
             ctx.fail("C11/session-crash", "the session died", inputs=inputs, rc=[rci, rcb])
             continue
         if not err_free:
             stats["incremental_error"] += 1
+            # second sentence of the property: definitions and toplevel variables persist. If the same text
+            # runs without error as ONE input, an error in the incremental run means state was lost
+            # (or invented) between requests.
+            if len(rb) == 1 and rb[0][0] == "ok":
+                ctx.fail("C11/incremental-error", "the concatenated input runs without error but the incremental "
+                         "run stops with an error: %s" % [r[:2] for r in ri if r[0] != "ok"][:1], inputs=inputs,
+                         incremental=[list(map(str, r)) for r in ri], batch=[list(map(str, r)) for r in rb])
             continue
         stats["error_free"] += 1
         vi, vb = last_value(ri), last_value(rb)
@@ -249,7 +266,7 @@ def run(ctx):
         for k in range(n):
             a = ast[a0 + k]
             parts.append(renumber(a[3:], 100000 * (k + 1)) if a and a.startswith("OK ") else "(astx 1)")
-        lines.append("session_run 200000 " + " ".join(parts))
+        lines.append("c11_session_run 200000 " + " ".join(parts))
     model = ctx.model_batch(lines, timeout=900)
     ncmp = nskip = 0
     for (ix, vi), m in zip(mj, model):
@@ -270,9 +287,9 @@ def run(ctx):
             continue
         ncmp += 1
         if minc != vi:
-            ctx.disagree("session_run(incremental)", {"inputs": hists[ix]}, minc, vi)
+            ctx.disagree("c11_session_run(incremental)", {"inputs": hists[ix]}, minc, vi)
         elif mbat != minc:
-            ctx.disagree("session_run(batch)", {"inputs": hists[ix]}, mbat, vi)
+            ctx.disagree("c11_session_run(batch)", {"inputs": hists[ix]}, mbat, vi)
     ctx.cov["correspondence_compared"] = ncmp
     ctx.cov["correspondence_outside_fragment"] = nskip + (len(model_jobs) - len(mj))
     for ix, vi in model_jobs[:3]:
